@@ -9,7 +9,34 @@ RULE = ("TCP transfers in both directions with path-MTU tables (per address pair
         "recording every segment's payload size; non-trivial = at least 3 completions; distinct = distinct traces")
 TRUSTED = ["model: coq/Model/Sim.v write_loop / tcp_async_connect / tcp_internal_connect / udp_send_to"]
 ASSUMPTIONS = ["path MTU >= 1 (0 makes write_some loop forever in the C++ as well)"]
-generate = tcommon.generate_flavour("mtu")
+def gen_nat_mtu(rng, k):
+    """the connector sits behind a NAT and the MTU table distinguishes its real address from the NAT's external
+    one: both sides must segment for the pair of REAL addresses; both directions carry several segments"""
+    from .ncommon import Net, A1, EXT
+    r = rng
+    net = Net(r, nnodes=2, nat={2: 0}, probes=True, bw=r.choice([0, 800000]), lat=r.choice([0, 1000000]))
+    L = list(net.lines)
+    small = r.choice([100, 536, 600, 1200])
+    big = r.choice([1475, 3000, 9000])
+    swap = r.random() < 0.3
+    a, b = (big, small) if swap else (small, big)
+    L += ["MTUP 0 %d 0 %d %d" % (A1 + 1, A1, a), "MTUP 0 %d 0 %d %d" % (A1, A1 + 1, a),
+          "MTUP 0 %d 0 %d %d" % (EXT, A1, b), "MTUP 0 %d 0 %d %d" % (A1, EXT, b)]
+    n = r.choice([7000, 7000, 20000])
+    L += ["M acc_new 1 1", "M tcp_open 1 1", "M tcp_bind 1 0 0 1337", "M listen 1 10", "M tcp_new 2 1", "M tcp_new 3 2",
+          "M accept 1 2 %d 10" % r.choice([0, 1])]
+    if r.random() < 0.5:
+        L += ["M tcp_open 3 1", "M tcp_bind 3 0 %d %d" % (A1 + 1, r.choice([0, 4000]))]
+    L += ["M tcp_connect 3 0 %d 1337 11" % A1,
+          "H 10 tcp_read_all 2 4096 13", "H 10 tcp_write_all 2 %d %d 1048576 12" % (r.randrange(1000), n),
+          "H 11 tcp_read_all 3 4096 15", "H 11 tcp_write_all 3 %d %d 1048576 14" % (r.randrange(1000), n),
+          "M expires_at 9 20000000000", "M async_wait 9 16", "H 16 tcp_close 3", "H 16 tcp_close 2", "M run"]
+    return L
+
+
+def generate(rng, tier):
+    n = 10 if tier == "quick" else 300
+    return tcommon.generate_flavour("mtu")(rng, tier) + [("nm%d" % k, gen_nat_mtu(rng, k)) for k in range(n)]
 classify = tcommon.classify
 nontrivial = tcommon.nontrivial
 
@@ -27,6 +54,19 @@ def oracle(lines, trace):
             mtu = int(t[1])
         if t[0] == "MTUP":
             pairs[(int(t[2]), int(t[4]))] = int(t[5])
+    # a NAT's external address stands for the node behind it: the MTU is a matter of the real addresses
+    real = {}
+    sinks = {}
+    for l in lines:
+        t = l.split()
+        if t[0] == "S" and t[2] == "nat":
+            sinks[int(t[1])] = int(t[4])
+    for l in lines:
+        t = l.split()
+        if t[0] == "OUT":
+            for x in t[t.index(":") + 1:]:
+                if int(x) in sinks:
+                    real[sinks[int(x)]] = int(t[2])
     srv = None
     for l in lines:
         t = l.split()
@@ -35,7 +75,7 @@ def oracle(lines, trace):
             srv = int(t[i + 3])
     for (tm, tag, f) in parse_trace(trace):
         if tag == 2 and f[1] == 5 and f[2] - f[7] == 40:      # TCP payload segment (overhead 40)
-            src = f[5]
+            src = real.get(f[5], f[5])
             paylen = f[7]
             # the limit for a connection between src and the server (either direction)
             if srv is None:
